@@ -250,8 +250,8 @@ func compareWithSpec(s *spec.Spec, text string) string {
 			return fmt.Sprintf("rule %d: action text is %q, the file says %q", i+1, or.ActionCode, sr.Action)
 		}
 	}
-	if root.GetCode() != s.Prologue {
-		return fmt.Sprintf("prologue is %q, the file says %q", root.GetCode(), s.Prologue)
+	if root.GetCode() != s.Prologue+s.Prologue2 {
+		return fmt.Sprintf("prologue is %q, the file's %%{ %%} blocks say %q", root.GetCode(), s.Prologue+s.Prologue2)
 	}
 	if !s.NoUnion && root.GetUion() != s.Union {
 		return fmt.Sprintf("%%union body is %q, the file says %q", root.GetUion(), s.Union)
@@ -327,8 +327,8 @@ func evalC10Output(c *Ctx, cs C10Case) string {
 			return fmt.Sprintf("variant %s: generation succeeded but wrote no file\n%s", v, text)
 		}
 		o := string(b)
-		if !strings.Contains(o, s.Prologue) {
-			return fmt.Sprintf("variant %s: the prologue %q does not appear unchanged in the output\n%s", v, s.Prologue, text)
+		if !strings.Contains(o, s.Prologue+s.Prologue2) {
+			return fmt.Sprintf("variant %s: the prologue %q does not appear unchanged in the output\n%s", v, s.Prologue+s.Prologue2, text)
 		}
 		if !s.NoUnion && !strings.Contains(o, s.Union) {
 			return fmt.Sprintf("variant %s: the %%union body %q does not appear unchanged in the output\n%s", v, s.Union, text)
